@@ -63,7 +63,7 @@ mod verif_native_cursor {
                 next_id += 1;
             }
             round += 1;
-            if round > 8 { return Err("cursor does not terminate".into()); }
+            if round > 10 { return Err("cursor does not terminate".into()); }
             state = cursor.met_iteration_end(&mut stream);
         }
         let mut sorted = seen.clone();
@@ -79,11 +79,13 @@ mod verif_native_cursor {
     #[test]
     fn fold_visits_each_value_once() {
         let mut cases = 0u64;
-        for n_initial in 0..=3usize {
+        let deep = std::env::var("VERIF_TIER").map(|v| v == "thorough").unwrap_or(false);
+        let (max_initial, max_rounds) = if deep { (4usize, 4usize) } else { (3, 3) };
+        for n_initial in 0..=max_initial {
             for mut code in 0..4usize.pow(n_initial as u32) {
                 let mut initial = vec![];
                 for _ in 0..n_initial { initial.push(code % 4); code /= 4; }
-                for n_rounds in 0..=3usize {
+                for n_rounds in 0..=max_rounds {
                     for mut acode in 0..3usize.pow(n_rounds as u32) {
                         let mut appends = vec![];
                         for _ in 0..n_rounds { appends.push(acode % 3); acode /= 3; }
